@@ -227,6 +227,8 @@ type zipkinNDDecoderV2 struct {
 func (z *zipkinNDDecoderV2) Decode() error {
 	scanner := bufio.NewScanner(z.ctx.bodyReader)
 	scanner.Split(bufio.ScanLines)
+	// a span may be longer than bufio's default 64 KiB token limit
+	scanner.Buffer(make([]byte, 0, 64*1024), 16*1024*1024)
 	for scanner.Scan() {
 		z.reset()
 		z.payload = append([]byte{}, scanner.Bytes()...)
@@ -234,6 +236,10 @@ func (z *zipkinNDDecoderV2) Decode() error {
 		if err != nil {
 			return custom_errors.NewUnmarshalError(err)
 		}
+	}
+	// a read error or an over-long line must not end the request as if the body were complete
+	if err := scanner.Err(); err != nil {
+		return custom_errors.NewUnmarshalError(err)
 	}
 	return nil
 }
